@@ -14,7 +14,7 @@ EXTENDS Exact, FiniteSets, TLC, Json
 
 CONSTANTS NPops,     \* population sizes explored
           Alphas,    \* set of <<num, den>>
-          Lattice,   \* "full" | "small": size of the (box, mean, sd) lattice
+          Lattice,   \* "full" | "small" | "tiny": size of the (box, mean, sd) lattice
           Fits,      \* fitness classes
           NPats,     \* number of noise patterns used
           STOP,      \* "sampled": stop after cem_sample; "updated": whole iteration
@@ -43,7 +43,8 @@ vars == <<stage, conf, dist, tmat, samples, fitv>>
 (* lattices *)
 Lbs   == IF Lattice = "full" THEN {Q(-2, 1), Q(-1, 2)} ELSE {Q(-1, 1)}
 Ubs   == IF Lattice = "full" THEN {Q(1, 2), Q(1, 1), Q(3, 1)} ELSE {Q(1, 1)}
-Sds   == IF Lattice = "full" THEN {Q(1, 4), Q(1, 2), Q(1, 1), Q(2, 1)} ELSE {Q(1, 4), Q(1, 1)}
+Sds   == IF Lattice = "full" THEN {Q(1, 4), Q(1, 2), Q(1, 1), Q(2, 1)}
+         ELSE IF Lattice = "small" THEN {Q(1, 4), Q(1, 1)} ELSE {Q(1, 1)}
 Means(lb, ub) ==                      \* inside the box, including both faces
   IF Lattice = "full"
     THEN {lb, QAdd(lb, Q(1, 4)), QMul(Half, QAdd(lb, ub)), QSub(ub, Q(1, 2)), ub}
